@@ -4,6 +4,8 @@ import json, os
 ROOT = os.path.dirname(os.path.dirname(os.path.abspath(__file__)))
 
 CLAIMED = {
+    "C17": ("§4 C17", "_build_environ against a PEP 3333 reference over path/root_path/header/query tables, body-limit logic for every chunk length and limit (unbounded ints), run_app over 11 WSGI application shapes, non-HTTP scopes"),
+    "C20": ("§4 C20", "ProxyFix trust boundary (structure of forwarding headers x trusted_hops x mode, attacker-prefix independence, caller scope untouched), Dispatcher routing over mount tables and all short paths, HTTPS redirect URL construction over scope tables"),
     "C02": ("§4 C02", "HTTPStream.app_send response mapping for every status/method/version/chunking shape, suppress_body for every int status, H11/H2 stream_send header composition for every status and counter value"),
     "C08": ("§4 C08", "StreamBuffer watermark logic for all chunk/pop sizes: one-step rules, an inductive invariant that implies a fixed bound on held data for histories of any length, bounded operation sequences incl. close/drain release"),
     "C12": ("§4 C12", "ASGI send automaton conformance (HTTP and WebSocket) for every bounded message sequence with valid and invalid payloads; header validation over a CR/LF/NUL/':' alphabet"),
